@@ -127,3 +127,38 @@ make_constraints = FunctionContract(
     canary=[("if node_i != node_t:", "if True:"), ("constraints.add((node_i, node_t))", "constraints.add((node_t, node_i))")],
 )
 CONTRACTS.append(make_constraints)
+
+
+# ------------------------------------------------------------------ ISMAGS._edges_of_same_color
+INode, IColor, IEdge = TKey('INode'), TKey('IColor'), TKey('IEdge')
+INPair = TTuple(INode, INode)
+
+
+def setup_esc(cx):
+    sge = cx.val('sge_colors', TMap(INPair, IColor))        # colour of every edge of the pattern (one orientation per edge)
+    compat = cx.val('edge_compatibility', TMap(IColor, IColor))   # pattern edge colour -> colour of the graph edges it may map to
+    parts = cx.val('ge_partitions', TSeq(TSeq(IEdge)))      # graph edges by colour number
+    cnum = cx.uf('color_number', [IColor], TInt)            # a colour is a position in the partition list
+    cx.spec_env.update(SGE=sge, COMPAT=compat, PARTS=parts)
+    pl = Obj('partitions', __getitem__=Builtin(
+        lambda e, c: (e.maybe_raise(z3.And(0 <= cnum(to_z3(c, IColor)), cnum(to_z3(c, IColor)) < TSeq(TSeq(IEdge)).len(parts.e)), 'IndexError'),
+                      SV(TSeq(IEdge), TSeq(TSeq(IEdge)).at(parts.e, cnum(to_z3(c, IColor)))))[1], 'ge_partitions[]'))
+    self = Obj('ISMAGS', _sge_colors=sge, _edge_compatibility=compat, _ge_partitions=pl)
+    return dict(self=self, sgn1=cx.val('sgn1', INode), sgn2=cx.val('sgn2', INode))
+
+
+edges_of_same_color = FunctionContract(
+    F, 'ISMAGS._edges_of_same_color', 'C06', setup=setup_esc, spec_env=dict(INode=INode, IColor=IColor), result_ty=TSeq(IEdge),
+    spec_defs={'col': "lambda: SGE[(sgn1, sgn2)] if (sgn1, sgn2) in SGE else SGE[(sgn2, sgn1)]"},
+    requires=["(sgn1, sgn2) in SGE or (sgn2, sgn1) in SGE",
+              "forall(lambda c: implies(c in COMPAT, 0 <= color_number(COMPAT[c]) and color_number(COMPAT[c]) < len(PARTS)), IColor)"],
+    ensures=[
+        # the graph edges a pattern edge may be mapped to: those of the colour compatible with its own, none if there is no such colour
+        "implies(col() in COMPAT, len(result) == len(PARTS[color_number(COMPAT[col()])]) and "
+        "   forall(lambda i: implies(0 <= i and i < len(result), result[i] == PARTS[color_number(COMPAT[col()])][i])))",
+        "implies(not (col() in COMPAT), len(result) == 0)",
+    ],
+    canary=[("sge_color = self._sge_colors[sgn2, sgn1]", "sge_color = self._sge_colors[sgn1, sgn1]"),
+            ("g_edges = self._ge_partitions[ge_color]", "g_edges = self._ge_partitions[sge_color]")],
+)
+CONTRACTS.append(edges_of_same_color)
